@@ -283,6 +283,7 @@ func (c *Ctx) Fork() bool {
 		return d
 	}
 	c.pos++
+	c.Forks++
 	alt := append(append([]bool(nil), c.trace...), false)
 	c.spawn = append(c.spawn, alt)
 	c.trace = append(c.trace, true)
